@@ -34,7 +34,7 @@ PROPS = {
 }
 # runs per flavour; sizes; determinism-gate sample; wall-clock cap of the sweeps (s)
 TIERS = {
-    "quick": dict(runs=dict(C03=2400, C04=2000, C05=2000, C08=1600, C12=2400, C17=4000, C18=1200, C19=1600), maxlog=7, maxlog_tree=5, max_copy=5000, gate=200, cap_s=150),
+    "quick": dict(runs=dict(C03=40000, C04=40000, C05=30000, C08=12000, C12=30000, C17=60000, C18=12000, C19=20000), maxlog=7, maxlog_tree=5, max_copy=5000, gate=200, cap_s=150),
     "thorough": dict(runs=dict(C03=60000, C04=50000, C05=50000, C08=30000, C12=60000, C17=120000, C18=24000, C19=40000), maxlog=10, maxlog_tree=7, max_copy=70000, gate=3000, cap_s=900),
 }
 MAX_MINIMISE = 3  # distinct violation signatures that are minimised and written as replay files
